@@ -583,7 +583,12 @@ def _main(tier_, master, cfg, docs, A, cwd, t0):
     wall = time.time() - t0
     digest = common.tree_digest(subdirs=('athlib', 'json', 'sample-jsons'))
     vlines = []
+    klines = []
     for cls, v in sorted(viols.items()):
+        k = common.match_known(PROP, cls, {'trace': v['trace'], 'detail': v['detail']})
+        if k:
+            klines.append('KNOWN-FINDING: property=%s sig=%s %s' % (PROP, k[0], k[1]))
+            continue
         name = re.sub(r'[^A-Za-z0-9_.-]+', '_', cls)[:80] + '-s%d' % master
         path = common.write_replay(PROP, name, {
             'engine': 'schemasim', 'master_seed': master, 'run_index': v['run_index'], 'athlib_tree_digest': digest,
@@ -630,6 +635,7 @@ def _main(tier_, master, cfg, docs, A, cwd, t0):
         'violating_runs': st.get('violating_runs', 0),
         'violation_classes': sorted(viols),
         'regression_corpus': cst,
+        'known_findings_matched': len(klines),
         'determinism': det,
         'all_runs_digest': '%016x' % rd,
         'components': {'real': ['athlib.utils (working tree)', 'jsonschema 3.2', 'json', 'urllib file: handler', 'the bundled schema and sample files'],
@@ -642,6 +648,8 @@ def _main(tier_, master, cfg, docs, A, cwd, t0):
         'fork() of a process that imported athlib but never called it is taken as a fresh process (cross-checked against fresh interpreters in the thorough tier)',
         'outcomes are compared as value repr, or exception type plus a hash of the message',
         'I/O faults are diagnostic only: C19 quantifies over call histories, not over failing reads'])
+    for l in klines:
+        print(l)
     for l in vlines:
         print(l)
     print('C19: histories=%d distinct=%d nontrivial=%d calls=%d violating=%d classes=%s abs=%s det=%s wall=%.1fs' %
